@@ -98,6 +98,8 @@ def dec(e, names=()):
         return P.Max(tuple(d(a) for a in e[1:]))
     if op == "if":
         return P.If(d(e[1]), d(e[2]), d(e[3]))
+    if op == ".":
+        return P.Lookup(d(e[1]), e[2])                  # attribute lookup: z.real
     raise ValueError("bad expression %r" % (e,))
 
 
@@ -117,6 +119,8 @@ def svars(e, names=()):
         return out
     if op == "cmp":
         return svars(e[2], names) | svars(e[3], names)
+    if op == ".":
+        return svars(e[1], names)
     for a in e[1:]:
         out |= svars(a, names)
     return out
@@ -963,6 +967,17 @@ def bounded(payload):
         ops.append(["assign", "<state>y", ["+", "$0", "$%d" % (len(prefixes) - 1)]])
         run({"ops": ops, "ctx": SMALL_CTX}, "exhaustive_programs")
         parts["reserved_up_front_programs"] = parts.get("reserved_up_front_programs", 0) + 1
+
+    # attribute lookups (z.real, z.imag) on a variable that is written before and after the read
+    for pos in ("rhs", "sub", "guard", "bound", "arg"):
+        lk = [".", "z", "real"]
+        read = {"rhs": ["assign", "re", lk], "sub": ["assign", ["[]", "a", ["%", lk, 2]], 1],
+                "guard": ["if", ["cmp", ">", lk, 0], [["assign", "re", 1]], None],
+                "bound": ["assign", ["[]", "a", "i"], 1, [["i", 0, ["%", lk, 3]]]],
+                "arg": ["call", ["re"], "<func>f", [lk], {}]}[pos]
+        ops = [["assign", "z", ["+", "x", 1]], read, ["assign", "z", ["*", "x", 3]], ["assign", "<state>y", ["+", "z", "x"]]]
+        run({"ops": ops, "ctx": SMALL_CTX}, "exhaustive_programs")
+        parts["attribute_lookup_programs"] = parts.get("attribute_lookup_programs", 0) + 1
 
     # a `with builder:` block that fails part-way (the caller catches the exception and keeps building)
     for inner in ([["assign", "<state>y", 1], ["assign", "w", 7]], [["assign", "x", ["+", "x", 1]]],
